@@ -42,6 +42,8 @@ type c19Case struct {
 	// EchoBoundary: the request is sent once to learn the delimiter the gateway used towards the services; then file 0
 	// becomes a text that contains that delimiter (a captured earlier request, an audit log) and the request is sent again
 	EchoBoundary bool `json:"echo_boundary,omitempty"`
+	// KeyStyle: how the client names the files in the map and the parts: 0 = "0","1",... ; 1 = "1","2",... ; 2 = names
+	KeyStyle int `json:"map_key_style,omitempty"`
 }
 
 func (c19) ID() string            { return "C19" }
@@ -219,6 +221,7 @@ func (p c19) Gen(c *run.Ctx, idx int) (json.RawMessage, error) {
 		// ... or answers it with GraphQL errors (next to the data, or instead of it)
 		cs.FaultKind = pick(r, []string{"transport-eof", "transport-reset", "transport-unexpected-eof", "errors+data", "errors"})
 	}
+	cs.KeyStyle = []int{0, 0, 1, 2}[idx%4]
 	if idx%25 == 13 && cs.FaultKind == "" {
 		cs.EchoBoundary = true
 	}
@@ -268,6 +271,17 @@ func (p c19) Gen(c *run.Ctx, idx int) (json.RawMessage, error) {
 	return mustJSON(cs), nil
 }
 
+// c19Key is the key of file i in the map (and the name of its part): the specification only asks for matching strings.
+func c19Key(style, i int) string {
+	switch style {
+	case 1:
+		return fmt.Sprint(i + 1)
+	case 2:
+		return []string{"cover", "file_b", "z", "10", "attachment"}[i%5] + strings.Repeat("_", i/5)
+	}
+	return fmt.Sprint(i)
+}
+
 // c19Body renders the client's multipart request of a case.
 func c19Body(sp *c19Case) (string, []byte) {
 	var opsJSON []byte
@@ -278,12 +292,12 @@ func c19Body(sp *c19Case) (string, []byte) {
 	}
 	mapv := map[string][]string{}
 	for i, f := range sp.Files {
-		mapv[fmt.Sprint(i)] = f.Paths
+		mapv[c19Key(sp.KeyStyle, i)] = f.Paths
 	}
 	mb, _ := json.Marshal(mapv)
 	parts := []mpPart{{name: "operations", data: opsJSON}, {name: "map", data: mb}}
 	for i, f := range sp.Files {
-		parts = append(parts, mpPart{name: fmt.Sprint(i), filename: f.Name, data: f.Data})
+		parts = append(parts, mpPart{name: c19Key(sp.KeyStyle, i), filename: f.Name, data: f.Data})
 	}
 	return buildMultipart(parts)
 }
@@ -335,12 +349,12 @@ func (p c19) Exec(c *run.Ctx, idx int, raw json.RawMessage) []run.Result {
 	mapv := map[string][]string{}
 	parts := []mpPart{{name: "operations", data: opsJSON}}
 	for i, f := range sp.Files {
-		mapv[fmt.Sprint(i)] = f.Paths
+		mapv[c19Key(sp.KeyStyle, i)] = f.Paths
 	}
 	mb, _ := json.Marshal(mapv)
 	parts = append(parts, mpPart{name: "map", data: mb})
 	for i, f := range sp.Files {
-		parts = append(parts, mpPart{name: fmt.Sprint(i), filename: f.Name, data: f.Data})
+		parts = append(parts, mpPart{name: c19Key(sp.KeyStyle, i), filename: f.Name, data: f.Data})
 	}
 	ct, body := buildMultipart(parts)
 	tags := map[string]bool{}
